@@ -135,6 +135,11 @@ class ThreadedHistory(History):
         # entries from the loader thread.
         self._string_load_events: list[threading.Event] = []
 
+        # Number of strings that `append_string()` inserted in front of
+        # `_loaded_strings`. A running `load()` uses it to keep its position:
+        # every insertion in front shifts the items it still has to yield.
+        self._num_prepended = 0
+
     async def load(self) -> AsyncGenerator[str, None]:
         """
         Like `History.load(), but call `self.load_history_strings()` in a
@@ -142,6 +147,14 @@ class ThreadedHistory(History):
         """
         # Start the load thread, if this is called for the first time.
         if not self._load_thread:
+            # Start with an empty list. In case `append_string()` was called
+            # before `load()` happened. Then `.store_string()` will have
+            # written these entries back to disk and we will reload it.
+            # (Done here, not in the thread, so that no `load()` ever sees
+            # the old content.)
+            with self._lock:
+                self._loaded_strings = []
+
             self._load_thread = threading.Thread(
                 target=self._in_load_thread,
                 daemon=True,
@@ -157,6 +170,7 @@ class ThreadedHistory(History):
         self._string_load_events.append(event)
 
         items_yielded = 0
+        prepended_at_start = self._num_prepended
 
         try:
             while True:
@@ -175,7 +189,9 @@ class ThreadedHistory(History):
                 # Read new items (in lock).
                 def in_executor() -> tuple[list[str], bool]:
                     with self._lock:
-                        new_items = self._loaded_strings[items_yielded:]
+                        # Skip what was inserted in front since we started.
+                        skip = self._num_prepended - prepended_at_start
+                        new_items = self._loaded_strings[skip + items_yielded :]
                         done = self._loaded
                         event.clear()
                     return new_items, done
@@ -199,11 +215,6 @@ class ThreadedHistory(History):
 
     def _in_load_thread(self) -> None:
         try:
-            # Start with an empty list. In case `append_string()` was called
-            # before `load()` happened. Then `.store_string()` will have
-            # written these entries back to disk and we will reload it.
-            self._loaded_strings = []
-
             for item in self.history.load_history_strings():
                 with self._lock:
                     self._loaded_strings.append(item)
@@ -219,6 +230,7 @@ class ThreadedHistory(History):
     def append_string(self, string: str) -> None:
         with self._lock:
             self._loaded_strings.insert(0, string)
+            self._num_prepended += 1
         self.store_string(string)
 
     # All of the following are proxied to `self.history`.
